@@ -25,8 +25,8 @@ def gen_program(rnd, length):
         r = rnd.random()
         if not bound or r < 0.16:
             dst = rnd.choice(NAMES)
-            nr, nc = rnd.choice([(2, 2), (3, 2), (2, 3), (3, 3), (1, 3), (0, 2), (2, 0), (1, 1), (3, 1)])
-            k = rnd.randint(0, 5) if nr * nc else 0
+            nr, nc = rnd.choice([(2, 2), (3, 2), (2, 3), (3, 3), (1, 3), (0, 2), (2, 0), (1, 1), (3, 1), (1, 2), (2, 1), (4, 2), (5, 2), (4, 3), (5, 1)])
+            k = rnd.randint(0, min(nr * nc + 2, 9)) if nr * nc else 0
             tc = rnd.choice(["d", "d", "z"])
             V = [c15.num(rnd, "d" if tc == "d" else "z")["v"] for _ in range(k)]
             if rnd.random() < 0.25 and k:
@@ -37,7 +37,7 @@ def gen_program(rnd, length):
             shapes[dst] = (nr, nc); kinds[dst] = "sparse"
         elif r < 0.24:
             dst = rnd.choice(NAMES)
-            nr, nc = rnd.choice([(2, 2), (3, 2), (2, 3), (3, 1), (1, 1), (0, 2)])
+            nr, nc = rnd.choice([(2, 2), (3, 2), (2, 3), (3, 1), (1, 1), (1, 1), (1, 1), (0, 2), (4, 2), (5, 1), (1, 3)])
             tcs = rnd.choice(["i", "d", "idz"])
             s = [c15.num(rnd, tcs) for _ in range(nr * nc)]
             op = {"k": "new_list", "s": s, "size": [nr, nc], "tc": "None", "dst": dst}
@@ -62,8 +62,13 @@ def gen_program(rnd, length):
             else:
                 rhs = {"t": "name", "n": rnd.choice(bound)}
             n = shapes[src][0] * shapes[src][1]
-            if rnd.random() < 0.4:
+            rq = rnd.random()
+            if rq < 0.3:
                 op = {"k": "set1", "src": src, "ix": c15.rand_index(rnd, n), "rhs": rhs}
+            elif rq < 0.55 and shapes[src][0] and shapes[src][1]:
+                # single cells (new entries are inserted into the compressed columns)
+                op = {"k": "set2", "src": src, "ix": {"t": "int", "v": rnd.randrange(shapes[src][0])}, "jx": {"t": "int", "v": rnd.randrange(shapes[src][1])},
+                      "rhs": {"t": "num", "x": c15.num(rnd, "id")}}
             else:
                 op = {"k": "set2", "src": src, "ix": c15.rand_index(rnd, shapes[src][0]), "jx": c15.rand_index(rnd, shapes[src][1]), "rhs": rhs}
         elif r < 0.78:
@@ -207,8 +212,10 @@ def run_program_stream(prog, emit):
             out = {"k": "err", "cls": "TypeError" if isinstance(e, TypeError) else "ValueError" if isinstance(e, ValueError) else type(e).__name__}
         except Exception as e:
             out = {"k": "err", "cls": type(e).__name__}
+        idxok = all(list(M_) == orig_ for M_, orig_ in c15._IDX_LOG)
+        del c15._IDX_LOG[:]
         ev = {"op": c15._clean(op), "out": out, "heap": {n: snap(M) for n, M in env.items()},
-              "same": [[a, b] for a in env for b in env if env[a] is env[b]]}
+              "same": [[a, b] for a in env for b in env if env[a] is env[b]], "idxok": idxok}
         if keepnnz is not None:
             ev["keepnnz"] = keepnnz
         emit(ev)
